@@ -143,7 +143,9 @@ NewExecKeys(m, e, c) ==
   ELSE (IF ~c.idem /\ m.execs # {} THEN {"speculative-non-idempotent"} ELSE {})
        \cup (IF c.idem /\ Cardinality(m.execs) + 1 > c.k + 1 THEN {"speculation-exceeds-policy"} ELSE {})
 
-Usable(c, h) == h >= 1 /\ h <= Len(c.hosts) /\ c.hosts[h] = "ok"
+\* "okonce": a host that is usable when it is offered and is reported down once an attempt on it has ended
+UsableKinds == {"ok", "okonce"}
+Usable(c, h) == h >= 1 /\ h <= Len(c.hosts) /\ c.hosts[h] \in UsableKinds
 
 StartKeys(m, r, e, h, x, c) ==
   LET retry == r.natt >= 1
@@ -167,7 +169,7 @@ StartKeys(m, r, e, h, x, c) ==
   \* an offered usable host is still untried, no execution attempts a host that ANOTHER execution
   \* of the statement has already attempted
   \cup (IF (\E f \in m.execs \ {e} : h \in m.x[f].hs)
-         /\ (\E u \in 1 .. Len(c.hosts) : c.hosts[u] = "ok" /\ \A f \in m.execs \cup {e} : u \notin m.x[f].hs /\ u # h)
+         /\ (\E u \in 1 .. Len(c.hosts) : c.hosts[u] \in UsableKinds /\ \A f \in m.execs \cup {e} : u \notin m.x[f].hs /\ u # h)
         THEN {"host-reused-by-parallel-execution"} ELSE {})
   \* "a query not marked idempotent is ... as the documentation states, never retried"
   \cup (IF retry /\ ~c.idem THEN {"non-idempotent-retried"} ELSE {})
@@ -219,7 +221,11 @@ MonStep(m, evt, c) ==
              r1 == IF evt.h = 0
                    THEN [r EXCEPT !.skipped = sk, !.cand = 0, !.comp = TRUE, !.ratt = 0, !.reord = r.lerr,
                                   !.rx = IF r.lerr # 0 THEN r.lerrx ELSE "noconn"]
-                   ELSE [r EXCEPT !.skipped = sk, !.cand = evt.h, !.comp = FALSE] IN
+                   ELSE [r EXCEPT !.skipped = sk, !.cand = evt.h, !.comp = FALSE,
+                                  \* the host of a "retry" decision went down after its attempt: the retry goes to
+                                  \* the next offered host
+                                  !.dec = IF r.dec = "retry" /\ r.prevh >= 1 /\ r.prevh <= Len(c.hosts) /\ c.hosts[r.prevh] = "okonce"
+                                          THEN "next" ELSE r.dec] IN
          AddExec(SetX(m, r1), {})
     [] evt.ev = "start" ->
          LET r1 == [r EXCEPT !.natt = r.natt + 1, !.prevh = evt.h, !.ord = evt.n, !.alw = "none", !.dec = "none",
